@@ -7,6 +7,10 @@
  *   R<ret>:<line>:<getc calls>:<parse.curr>:<input length>
  *   T<target before>  N<ret>:<line>:<getc calls>  T<target after>     mpt_parse_node on the same input
  *   L<0|1>                        LeakSanitizer verdict after everything was released
+ * Caller-loop family: <target> = "@B" (path with MPT_PATHFLAG(SepBinary), as examples/core/parse.c, the program behind the
+ * five parse_* ctest cases) or "@D" (plain MPT_PATH_INIT): the element function is called in a loop written as the one of
+ * mpt_parse_config on a path the CALLER owns; tokens F A E* R L; the binary path is decoded by the harness itself
+ * (element, its length byte, length byte of the next element) and ends with "!bin" when the chain is inconsistent.
  * The input is handed out by a counting getc callback: every byte once, then -2.
  */
 #include "common.h"
@@ -140,6 +144,21 @@ static int on_event(void *ctx, const MPT_STRUCT(path) *p, const MPT_STRUCT(value
 	(void) ctx;
 	vh_tok("E%d.%d:", curr, last);
 	if (!p->len) vh_add("~");
+	else if (p->flags & MPT_PATHFLAG(SepBinary)) {
+		const uint8_t *b = (const uint8_t *) p->base + p->off;
+		size_t pos = 0, l = p->first, n = 0;
+		while (1) {
+			if (pos + l + 2 > p->len || b[pos + l] != l) { vh_add("!bin"); break; }
+			if (n++) vh_add("/");
+			vh_add("x");
+			abbr(b + pos, l);
+			pos += l + 2;
+			/* the byte behind the last length byte is the length of the next element; after an element was removed
+			 * it keeps that length (mpt_path_add overwrites it, readers stop at path.len): not compared */
+			if (pos >= p->len) break;
+			l = b[pos - 1];
+		}
+	}
 	else {
 		const char *b = p->base + p->off;
 		size_t i, st = 0, end = p->len - 1;
@@ -184,6 +203,35 @@ static void run_case(int ntok, char **tok)
 	in.pos = 0; in.calls = 0;
 	parse.src.getc = in_getc;
 	parse.src.arg = &in;
+	/* the element functions on a path of the caller (the loop of mpt_parse_config, written out) */
+	if (tok[3][0] == '@') {
+		MPT_STRUCT(path) path = MPT_PATH_INIT;
+		if (tok[3][1] == 'B') path.flags = MPT_PATHFLAG(SepBinary);
+		if (!(next = mpt_parse_next_fcn(code))) vh_tok("R!");
+		else {
+			parse.prev = MPT_PARSEFLAG(Section);
+			while ((ret = next(&pfmt, &parse, &path)) > 0) {
+				struct iovec vec;
+				MPT_STRUCT(value) val = MPT_VALUE_INIT(MPT_type_toVector('c'), &vec);
+				vec.iov_base = (char *) (path.base + path.off + path.len);
+				vec.iov_len  = parse.valid;
+				on_event(0, &path, (ret & MPT_PARSEFLAG(Data)) ? &val : 0, parse.prev, ret);
+				if (ret & MPT_PARSEFLAG(SectEnd)) ret = mpt_path_del(&path);
+				else ret = mpt_path_invalidate(&path);
+				if (ret < 0) { ret = MPT_ERROR(MissingData); break; }
+				parse.prev = parse.curr;
+				parse.curr = 0;
+				parse.valid = 0;
+			}
+			vh_tok("R%d:%zu:%ld:%d:%zu", ret, parse.src.line, in.calls, (int) parse.curr, in.len);
+		}
+		mpt_path_fini(&path);
+		free((void *) in.d);
+		free(fmt); free(acc);
+		in.d = 0; fmt = acc = 0;
+		vh_tok("L%d", __lsan_do_recoverable_leak_check() ? 1 : 0);
+		return;
+	}
 	/* events under mpt_parse_config, set up as mpt_parse_node does */
 	if (!(next = mpt_parse_next_fcn(code))) vh_tok("R!");
 	else {
